@@ -27,4 +27,19 @@ for line in sys.stdin:
         out["ctor"] = cls(allow_custom=True, **dict(items))["id"]
     except Exception as e:
         out["ctor"] = "ERR " + type(e).__name__
+    # timestamps as naive datetime objects (= UTC by the library's documented convention, whatever zone this process runs in)
+    try:
+        import datetime as dt
+        import re
+        naive = {}
+        from stixmon.spec import model as M
+        tbl = M.model("2.1").types.get(o["type"], {}).get("by_name", {})
+        for k, v in o.items():
+            is_ts = tbl.get(k, {}).get("k") == "ts" or (o["type"].startswith("x-stixmon-") and k in ("seen", "stamped", "stamped_s"))
+            m = None if not is_ts else re.match(r"^(\d{4})-(\d\d)-(\d\d)T(\d\d):(\d\d):(\d\d)(?:\.(\d{1,6}))?Z$", v) if isinstance(v, str) else None
+            naive[k] = dt.datetime(*(int(x) for x in m.groups()[:6]), int((m.group(7) or "0").ljust(6, "0"))) if m and int(m.group(1)) >= 1 else v
+        if any(isinstance(v, dt.datetime) for v in naive.values()):
+            out["ctor-naive"] = cls(allow_custom=True, **naive)["id"]
+    except Exception as e:
+        out["ctor-naive"] = "ERR " + type(e).__name__
     print(json.dumps(out))
